@@ -90,4 +90,16 @@ PROPS = {
         assumptions=['answers are consumed by the loop in the order the script releases them (1.5 ms settle between answers)', 'real-timer scenarios depend on the machine keeping up with 5 ms heartbeats (run 4 at a time)'],
         timeout={'quick': 900, 'thorough': 7200},
     ),
+    'C13': dict(
+        props_file='Props/C13.v',
+        components=['c13'],
+        comp_names={13: 'checkLeaderLease on a real leader state', 1301: 'ValidateConfig (timing part)', 1302: 'minCheckInterval', 1005: 'leader isolated from its voter majority (real timers)', 1006: 'fault-free run (real timers)'},
+        rule='checkLeaderLease on a real server put in Leader state with one followerReplication per peer whose lastContact is now-d, d on a grid of {0,.2,.4,.8,1.2,1.6,3,10} x lease (never within 20% of the boundary), '
+             'for 7 configurations (1..5 servers, non-voters, staging, self non-voter): exhaustive up to 4 peers (5-server grid sampled in quick); compared: stepped down?, maxDiff and next interval in 20 ms buckets; '
+             'ValidateConfig over 648 combinations of heartbeat/election/commit/lease; real clusters with 60 ms lease: leader cut off with fewer than a quorum (non-voters on its side), step-down delay measured against 2 x lease, '
+             'write afterwards rejected; fault-free 1.5 s runs with 250 ms lease: no state change. Non-trivial: every case',
+        assumptions=['clock readings of the implementation differ from the harness by the call latency: durations compared in 20 ms buckets, grid points 40 ms from any bucket edge',
+                     'followerReplication struct literal re-stated in the hook VerifAddReplState', 'real-timer runs: 4 at a time, delay bound 2 x lease + 150 ms'],
+        timeout={'quick': 900, 'thorough': 7200},
+    ),
 }
